@@ -1,6 +1,7 @@
 //! Plans (explicit, serialisable descriptions of one run), their dispatch, and minimisation.
 
 use crate::report::RunOut;
+use crate::conc;
 use crate::seq;
 use crate::twin;
 use crate::wire;
@@ -13,6 +14,7 @@ pub enum Plan {
     Twin(twin::TwinPlan),
     Iso(twin::IsoPlan),
     Wire(wire::WirePlan),
+    Conc(conc::ConcPlan),
 }
 
 #[derive(Clone, Debug, Serialize, Deserialize, PartialEq)]
@@ -21,6 +23,7 @@ pub enum JobKind {
     Twin { mode: twin::TwinMode },
     Iso { backend: Backend, entry: Entry },
     Wire { backend: Backend },
+    Conc { backend: Backend, entry: Entry },
 }
 
 #[derive(Clone, Debug)]
@@ -37,6 +40,7 @@ pub fn gen(kind: &JobKind, seed: u64, thorough: bool) -> Plan {
         JobKind::Twin { mode } => Plan::Twin(twin::gen_plan(seed, *mode, thorough)),
         JobKind::Iso { backend, entry } => Plan::Iso(twin::gen_iso(seed, *backend, *entry, thorough)),
         JobKind::Wire { backend } => Plan::Wire(wire::gen_plan(seed, *backend, thorough)),
+        JobKind::Conc { backend, entry } => Plan::Conc(conc::gen_plan(seed, *backend, *entry, thorough)),
     }
 }
 
@@ -46,6 +50,7 @@ pub fn exec(plan: &Plan) -> RunOut {
         Plan::Twin(p) => twin::exec(p),
         Plan::Iso(p) => twin::exec_iso(p),
         Plan::Wire(p) => wire::exec(p),
+        Plan::Conc(p) => conc::exec(p),
     }
 }
 
@@ -55,6 +60,7 @@ pub fn scenario_name(plan: &Plan) -> &'static str {
         Plan::Twin(_) => "twin",
         Plan::Iso(_) => "iso",
         Plan::Wire(_) => "wire",
+        Plan::Conc(_) => "conc",
     }
 }
 
@@ -64,6 +70,7 @@ pub fn size(plan: &Plan) -> usize {
         Plan::Twin(p) => p.ops.len(),
         Plan::Iso(p) => p.ops.len(),
         Plan::Wire(p) => p.ops.len() + p.setup.len(),
+        Plan::Conc(p) => p.prefix.len() + p.batch.iter().map(|t| t.len()).sum::<usize>() + p.sched.replay.as_ref().map(|r| r.windows(2).filter(|w| w[0] != w[1]).count()).unwrap_or(0),
     }
 }
 
@@ -73,13 +80,18 @@ fn candidates(plan: &Plan) -> Vec<Plan> {
         Plan::Twin(p) => twin::shrink(p).into_iter().map(Plan::Twin).collect(),
         Plan::Iso(p) => twin::shrink_iso(p).into_iter().map(Plan::Iso).collect(),
         Plan::Wire(p) => wire::shrink(p).into_iter().map(Plan::Wire).collect(),
+        Plan::Conc(p) => conc::shrink(p).into_iter().map(Plan::Conc).collect(),
     }
 }
 
 /// Greedy delta-debugging: keep a candidate iff the same property *and* the same oracle fire.
 pub fn minimise(plan: &Plan, prop: &str, oracle: &str, max_execs: usize, max_secs: f64) -> (Plan, usize) {
     let start = std::time::Instant::now();
-    let mut cur = plan.clone();
+    // concurrent plans are first pinned to the explicit schedule they took
+    let mut cur = match plan {
+        Plan::Conc(p) => Plan::Conc(conc::pin_schedule(p)),
+        other => other.clone(),
+    };
     let mut execs = 0usize;
     'outer: loop {
         for cand in candidates(&cur) {
